@@ -76,16 +76,18 @@ def fmt5d (i : Int) : Str := padLeft 5 ' ' (intStr i)
 def fmt0d (w : Nat) (i : Int) : Str :=
   if i < 0 then '-' :: padLeft (w - 1) '0' (natStr i.natAbs) else padLeft w '0' (natStr i.toNat)
 
+/-- optional leading sign -/
+def signSplit : Str → Bool × Str
+  | '-' :: r => (true, r)
+  | '+' :: r => (false, r)
+  | t => (false, t)
+
 /-- `int(s)` on a string: surrounding whitespace, optional sign, decimal digits (underscore
 grouping is not modelled) -/
 def parseInt (s : Str) : Except Err Int :=
-  let t := strip s
-  let (neg, d) := match t with
-    | '-' :: r => (true, r)
-    | '+' :: r => (false, r)
-    | _ => (false, t)
-  if d.isEmpty || !d.all isDigit then .error valueError
-  else .ok (if neg then -(digitsVal d : Int) else (digitsVal d : Int))
+  let p := signSplit (strip s)
+  if p.2.isEmpty || !p.2.all isDigit then .error valueError
+  else .ok (if p.1 then -(digitsVal p.2 : Int) else (digitsVal p.2 : Int))
 
 /-! ## binary64 values, exactly -/
 
@@ -122,11 +124,7 @@ def roundToDouble (neg : Bool) (p q : Nat) : Dbl :=
 /-- `float(s)` on a string: `[ws][sign](digits[.digits]|.digits)[(e|E)[sign]digits][ws]`;
 `inf`/`nan` spellings and underscore grouping are not modelled -/
 def parseFloat (s : Str) : Except Err Dbl :=
-  let t := strip s
-  let (neg, t) := match t with
-    | '-' :: r => (true, r)
-    | '+' :: r => (false, r)
-    | _ => (false, t)
+  let (neg, t) := signSplit (strip s)
   let ip := t.takeWhile isDigit
   let r := t.dropWhile isDigit
   let (fp, r) := match r with
@@ -137,10 +135,7 @@ def parseFloat (s : Str) : Except Err Dbl :=
     | [] => .ok 0
     | c :: r' =>
       if c == 'e' || c == 'E' then
-        let (eneg, d) := match r' with
-          | '-' :: d => (true, d)
-          | '+' :: d => (false, d)
-          | _ => (false, r')
+        let (eneg, d) := signSplit r'
         if d.isEmpty || !d.all isDigit then .error valueError
         else .ok (if eneg then -(digitsVal d : Int) else (digitsVal d : Int))
       else .error valueError
